@@ -17,9 +17,9 @@ What is proved here, for all inputs:
                          writers need (`#OFFSET` = first tempo point: D14; key count from the chart type: D15) are read off
                          the generated converter table, so a source change breaks a proof obligation;
 * `offset_established_*` the writer hypothesis "`#OFFSET` = first tempo point" follows for the rule of `OsuToSM`
-                         unconditionally, for the rule `0.0` of `BMSToSM` / `O2JToSM` when the source's first tempo point is
-                         at 0 ms (`o2j_first_tempo_at_zero`: always so for an O2Jam level), and NOT for `QuaToSM`'s
-                         minimum over all rows (`quaToSM_offset_counterexample`: open finding N09a);
+                         and `QuaToSM` unconditionally, for the rule `0.0` of `BMSToSM` / `O2JToSM` when the source's first tempo point is
+                         at 0 ms (`o2j_first_tempo_at_zero`: always so for an O2Jam level), and NOT for the
+                         pre-D42 minimum over all rows (`minAll_offset_counterexample`; `QuaToSM` now uses the first rule);
 * `content_carried`      (link 2, from C08) for each of the 17 generated converter entries a successful conversion returns
                          one chart per source chart with the same hits / holds / tempo rows, columns shifted by the argument;
 * `into_qua_objects_partial`  (link 3 for Quaver, from C06 `qua_write_denotes`) the written document's denotation has the
@@ -106,11 +106,12 @@ def offsetRuleOf : Convert.MetaExpr → Option OffsetRule
   | .opaque "qua.stack().offset.min()" => some .minAll
   | _ => none
 
-/-- **every converter into StepMania sets the offset, and by which rule** (D14: `OsuToSM` had `0.0`) -/
+/-- **every converter into StepMania sets the offset, and by which rule** (D14: `OsuToSM` had `0.0`; D42: `QuaToSM`
+had the minimum over all stacked rows) -/
 theorem sm_offset_rules :
     (metaExprs "set" "offset").map (fun p => (p.1, offsetRuleOf p.2)) =
       [("BMSToSM.convert", some .zero), ("O2JToSM.convert", some .zero), ("O2JToSM.convert_merge", some .zero),
-       ("OsuToSM.convert", some .firstTempo), ("QuaToSM.convert", some .minAll)] ∧
+       ("OsuToSM.convert", some .firstTempo), ("QuaToSM.convert", some .firstTempo)] ∧
     (Generated.converters.filter (·.tgtGame == "sm")).map (·.name) = (metaExprs "set" "offset").map (·.1) := by
   decide +kernel
 
@@ -157,7 +158,7 @@ def OffsetOk (r : OffsetRule) (a : AChart) (svs : List Rat) : Prop := offsetBy r
 instance (r : OffsetRule) (a : AChart) (svs : List Rat) : Decidable (OffsetOk r a svs) := by
   unfold OffsetOk; infer_instance
 
-/-- `OsuToSM` (rule `first_offset()`, D14 repaired): established for every chart -/
+/-- `OsuToSM` and `QuaToSM` (rule `first_offset()`, D14 and D42 repaired): established for every chart -/
 theorem offset_established_first (a : AChart) (svs : List Rat) : OffsetOk .firstTempo a svs := rfl
 
 /-- `BMSToSM`, `O2JToSM` (rule `0.0`): established when the source's first tempo point is at 0 ms -/
@@ -166,15 +167,16 @@ theorem offset_established_zero (a : AChart) (svs : List Rat) (h : firstTempo a 
 
 example : OffsetOk .zero ⟨[(500, 1)], [], [(0, 120), (2000, 60)]⟩ [] := by decide +kernel
 
-/-- `QuaToSM` (rule `stack().offset.min()`): established only when nothing precedes the first tempo point … -/
+/-- the rule `stack().offset.min()` that `QuaToSM` had before D42 was repaired (no shipped converter uses it any more:
+`sm_offset_rules`): established only when nothing precedes the first tempo point … -/
 theorem offset_established_min (a : AChart) (svs : List Rat) (h : minTime a svs = firstTempo a) : OffsetOk .minAll a svs := h
 
 example : OffsetOk .minAll ⟨[(1000, 0)], [], [(1000, 120)]⟩ [1000, 1500] := by decide +kernel
 
-/-- … and fails as soon as a scroll velocity (or a note) does: **open finding N09a** — a Quaver chart with a scroll
+/-- … and fails as soon as a scroll velocity (or a note) does: **finding D42 (repaired)** — a Quaver chart with a scroll
 velocity at 0 ms and its tempo point and first note at 1000 ms gets `#OFFSET` 0 while the writer counts beats from the
 tempo point: everything is written 1000 ms early. -/
-theorem quaToSM_offset_counterexample : ¬ OffsetOk .minAll ⟨[(1000, 0), (1500, 3)], [], [(1000, 120)]⟩ [0] := by
+theorem minAll_offset_counterexample : ¬ OffsetOk .minAll ⟨[(1000, 0), (1500, 3)], [], [(1000, 120)]⟩ [0] := by
   decide +kernel
 
 /-- an O2Jam level's tempo list starts with the header tempo at 0 ms: the rule `0.0` of `O2JToSM` names its first point -/
